@@ -320,3 +320,83 @@ Proof.
   - exact (AInv_regs_nil _ _ _ H1).
   - simpl. rewrite !app_nil_r. eapply AInv_ghost_eq; eauto.
 Qed.
+
+(* ---------------------------------------------------------------- add_*_rr / add_*_rrset *)
+
+Definition step_ok (d : dstate) (g : gn) (o : wop) : Prop :=
+  match step d o with
+  | Ok (d', r) => exists L', AInv d' (gstep d g o r) L'
+  | _ => False
+  end.
+
+Lemma ext_unsection c0 w x w' : ext c0 (set_section w x) w' -> ext c0 w w'.
+Proof. intros []. constructor; auto. Qed.
+
+Lemma change_section_no_panic s w : change_section s w <> Panic.
+Proof. unfold change_section. destruct s; destruct (w_section w); discriminate. Qed.
+
+Lemma step_rr d g L s h n ty cl ttl rd vec : AInv d g L -> wf_name n -> wf_bytes rd ->
+  hs_contract (d_regs d) g h n -> step_ok d g (OAddRr s h n ty cl ttl rd vec).
+Proof.
+  intros Hi Hwf Hrd Hc. unfold step_ok.
+  pose proof (step_good_all d (OAddRr s h n ty cl ttl rd vec) (a_n _ _ _ Hi)) as G.
+  destruct (contract_ok d g L h n Hi Hc Hwf) as [Hh HhL].
+  cbn [step] in *. unfold add_section_rr, with_rollback in *.
+  destruct (change_section s (d_w d)) as [[[] w1]|[e w1]|] eqn:Ecs; cbn [bind] in *.
+  3:{ eapply change_section_no_panic; eauto. }
+  2:{ simpl in G |- *. exists L. apply AInv_err; auto. }
+  destruct (change_section_inv _ _ _ _ Ecs) as [x ->].
+  pose proof (add_rr_L (resolve_hint (d_regs d) h) n ty cl (ttl_from ttl) rd (if vec then Some [] else None)
+                (set_section (d_w d) x) L [] (g_q g) (g_o g) (g_r g)
+                (NInv_set_section _ _ _ x (a_ni _ _ _ Hi)) (a_an _ _ _ Hi) (vec0_ok _ _ _ vec) Hwf Hrd Hh HhL) as P.
+  assert (Hpre : pre (w_cursor (d_w d)) (set_section (d_w d) x)).
+  { split; simpl; [lia|]. apply (a_n _ _ _ Hi). }
+  pose proof (frame_add_rr (w_cursor (d_w d)) (resolve_hint (d_regs d) h) n ty cl (ttl_from ttl) rd
+                (if vec then Some [] else None) _ Hpre) as F.
+  destruct (add_rr (resolve_hint (d_regs d) h) n ty cl (ttl_from ttl) rd (if vec then Some [] else None)
+                   (set_section (d_w d) x)) as [[v' w2]|[e w2]|]; simpl in P, F; cbn [bind] in *; auto.
+  2:{ simpl in G |- *. exists L. apply AInv_err; auto. }
+  destruct (checked_add16 (sec_count s w2) 1) as [c|]; simpl in G |- *.
+  2:{ exists L. apply AInv_err; auto. }
+  destruct P as [L' [G' [Hi' [A' [V' [Vs [Hc' Hq']]]]]]]. simpl in Hq'.
+  exists L'.
+  apply (AInv_set_sec_count (mkD w2 _) _ L' s c).
+  apply (AInv_rr d g L w2 L'); auto.
+  - apply ext_unsection in F. exact F.
+  - eapply regs_after; eauto.
+    eapply regs_ok_mono; [apply (a_regs _ _ _ Hi)|apply F|apply F|apply G'].
+Qed.
+
+Lemma step_rrset d g L s h n ty cl ttl rds vec : AInv d g L -> wf_name n -> Forall wf_bytes rds ->
+  hs_contract (d_regs d) g h n -> step_ok d g (OAddRrset s h n ty cl ttl rds vec).
+Proof.
+  intros Hi Hwf Hrd Hc. unfold step_ok.
+  pose proof (step_good_all d (OAddRrset s h n ty cl ttl rds vec) (a_n _ _ _ Hi)) as G.
+  destruct (contract_ok d g L h n Hi Hc Hwf) as [Hh HhL].
+  cbn [step] in *. unfold add_section_rrset, with_rollback in *.
+  destruct (change_section s (d_w d)) as [[[] w1]|[e w1]|] eqn:Ecs; cbn [bind] in *.
+  3:{ eapply change_section_no_panic; eauto. }
+  2:{ simpl in G |- *. exists L. apply AInv_err; auto. }
+  destruct (change_section_inv _ _ _ _ Ecs) as [x ->].
+  pose proof (rrset_L n ty cl (ttl_from ttl) (g_q g) rds (resolve_hint (d_regs d) h) (if vec then Some [] else None) 0
+                (set_section (d_w d) x) L [] (g_o g) (g_r g)
+                (NInv_set_section _ _ _ x (a_ni _ _ _ Hi)) (a_an _ _ _ Hi) (vec0_ok _ _ _ vec) Hwf Hrd Hh HhL) as P.
+  assert (Hpre : pre (w_cursor (d_w d)) (set_section (d_w d) x)).
+  { split; simpl; [lia|]. apply (a_n _ _ _ Hi). }
+  pose proof (frame_rrset_loop (w_cursor (d_w d)) rds (resolve_hint (d_regs d) h) n ty cl (ttl_from ttl)
+                (if vec then Some [] else None) 0 _ Hpre) as F.
+  destruct (add_rrset_loop (resolve_hint (d_regs d) h) n ty cl (ttl_from ttl) rds (if vec then Some [] else None) 0
+                   (set_section (d_w d) x)) as [[[v' k] w2]|[e w2]|]; simpl in P, F; cbn [bind] in *; auto.
+  2:{ simpl in G |- *. exists L. apply AInv_err; auto. }
+  destruct (65535 <? N.of_nat k)%N; simpl in G |- *.
+  { exists L. apply AInv_err; auto. }
+  destruct (checked_add16 (sec_count s w2) (N.of_nat k)) as [c|]; simpl in G |- *.
+  2:{ exists L. apply AInv_err; auto. }
+  destruct P as [L' [G' [Hi' [A' [V' [Vs [Hk [Hc' [Hm' Hq']]]]]]]]]. simpl in Hq'.
+  exists L'.
+  apply (AInv_set_sec_count (mkD w2 _) _ L' s c).
+  apply (AInv_rr d g L w2 L'); auto.
+  - apply ext_unsection in F. exact F.
+  - eapply regs_after; eauto.
+    eapply regs_ok_mono; [apply (a_regs _ _ _ Hi)|apply F|apply F|apply G'].
+Qed.
